@@ -386,7 +386,9 @@ class SparseDisk:
             self.fh.seek((sector + 1) * SECTOR_SIZE)
             buf += self.fh.read(remaining_len)
 
-        return zlib.decompress(buf[header_len : header_len + compressed_len])
+        # A grain never inflates to more than the grain size
+        dctx = zlib.decompressobj()
+        return dctx.decompress(buf[header_len : header_len + compressed_len], self.header.grain_size * SECTOR_SIZE)
 
 
 class SparseExtentHeader:
